@@ -32,18 +32,21 @@ pub fn local_ray_intersection_with_support_map_with_params<G: ?Sized + SupportMa
         inter.and_then(|(time_of_impact, normal)| {
             if time_of_impact.is_zero() {
                 // the ray is inside of the shape.
-                let ndir = ray.dir.normalize();
+                let dir_norm = ray.dir.norm();
+                let ndir = ray.dir / dir_norm;
                 let supp = shape.local_support_point(&ndir);
                 let eps = na::convert::<f64, Real>(0.001f64);
                 let shift = (supp - ray.origin).dot(&ndir) + eps;
-                let new_ray = Ray::new(ray.origin + ndir * shift, -ray.dir);
+                // Cast back along the unit direction so that `shift` and the
+                // resulting time of impact are both expressed as distances.
+                let new_ray = Ray::new(ray.origin + ndir * shift, -ndir);
 
                 // TODO: replace by? : simplex.translate_by(&(ray.origin - new_ray.origin));
                 simplex.reset(CSOPoint::single_point(supp - new_ray.origin.coords));
 
                 gjk::cast_local_ray(shape, simplex, &new_ray, shift + eps).and_then(
                     |(time_of_impact, outward_normal)| {
-                        let time_of_impact = shift - time_of_impact;
+                        let time_of_impact = (shift - time_of_impact) / dir_norm;
                         if time_of_impact <= max_time_of_impact {
                             Some(RayIntersection::new(
                                 time_of_impact,
